@@ -648,11 +648,13 @@ class Nest(MultiCrossBlockRepeat):
                 pass
             else:
                 raise ValueError("Outer and inner blocks cannot have different alignment.")
-        design = outer_block.design + []
-        for f in inner_block.design:
+        # Use the designs and crossings as originally given (before weight
+        # desugaring), since `orig_constraints` refers to those factors.
+        design = outer_block.orig_design + []
+        for f in inner_block.orig_design:
             if f not in design:
                 design.append(f)
-        crossings = outer_block.crossings + inner_block.crossings
+        crossings = outer_block.orig_crossings + inner_block.orig_crossings
         inner_len = inner_block.trials_per_sample() - inner_block.common_preamble_size()
         outer_sustain_counts = [inner_len * sc for sc in outer_block.crossing_sustain_counts]
         crossing_sustain_counts = outer_sustain_counts + inner_block.crossing_sustain_counts
